@@ -86,6 +86,36 @@ def check_include_subst(col, text):
         shutil.rmtree(d, ignore_errors=True)
 
 
+def check_nested_include(col):
+    """An include INSIDE an included file is transparent for the rest of that file: what follows the inner include is
+    rendered exactly as what precedes it (same relative-images / relative-docs treatment, same source path, same nodes as
+    the three pieces written in place)."""
+    from docutils import nodes
+
+    for opts in ("", ":relative-images:\n"):
+        d = tempfile.mkdtemp(prefix="c06-")
+        try:
+            os.makedirs(os.path.join(d, "sub"))
+            open(os.path.join(d, "sub", "a.md"), "w").write("![one](img/one.png)\n\npara A1\n\n```{include} b.md\n```\n\n![two](img/two.png)\n\npara A2\n")
+            open(os.path.join(d, "sub", "b.md"), "w").write("inner para B\n")
+            main = "before\n\n```{include} sub/a.md\n" + opts + "```\n\nafter\n"
+            case = {"nested_include": True, "options": opts}
+            col.case(("nested-include", opts))
+            doc, _l = parse(main, OV, source_path=os.path.join(d, "index.md"))
+            uris = [n["uri"] for n in doc.findall(nodes.image)]
+            if len(uris) != 2 or os.path.dirname(uris[0]) != os.path.dirname(uris[1]):
+                col.fail("C06.nested-include", case, f"images before / after an include nested in the included file resolve differently: {uris!r}",
+                         function="myst_parser.mocking:MockIncludeDirective.run")
+            paras = [p.astext() for p in doc.findall(nodes.paragraph)]
+            want = ["before", "para A1", "inner para B", "para A2", "after"]
+            if [p for p in paras if p in want] != want:
+                col.fail("C06.nested-include", case, f"paragraph order with a nested include is {paras!r}", function="myst_parser.mocking:MockIncludeDirective.run")
+        finally:
+            import shutil
+
+            shutil.rmtree(d, ignore_errors=True)
+
+
 SHARED = [
     # (definition text placed inside the container, use placed after it, what must appear)
     ("[site]: https://example.com/x\n", "see [the site][site]\n", 'refuri="https://example.com/x"'),
@@ -147,11 +177,16 @@ def run(tier, seed, extra):
             col.case(("shared", container, definition))
             check_shared(col, container, definition, use, needle)
             n2 += 1
-    col.add_bound("include / substitution = text in place; definitions inside stay usable outside", f"{n2} cases", n2, time.time() - t0)
+    check_nested_include(col)
+    n2 += 2
+    col.add_bound("include / substitution = text in place; definitions inside stay usable outside; an include nested in an included file "
+                  "(with / without relative-images)", f"{n2} cases", n2, time.time() - t0)
     return col.result()
 
 
 def replay(col, case, check):
+    if case.get("nested_include"):
+        return check_nested_include(col)
     if "fence" in case:
         check_wrap(col, case["text"], case["fence"], case["depth"])
     elif "via" in case:
